@@ -400,9 +400,7 @@ func init() {
 	reg("github.com/cosmos/cosmos-sdk/telemetry.ModuleMeasureSince", noop)
 	reg("github.com/cosmos/cosmos-sdk/telemetry.IncrCounter", noop)
 	reg("time.Now", func(e *Exec, s *State, f *Frame, x *ssa.Call, a []Val) ([]*State, bool) {
-		n := e.sol.fresh("wallclock", false)
-		e.inputs = append(e.inputs, n)
-		e.inputTag = append(e.inputTag, "time.Now")
+		n := e.newInput("wallclock", "time.Now", false)
 		e.stats["env-choice:time.Now"]++
 		return ret(f, x, TimeV{T: n})
 	})
@@ -615,19 +613,16 @@ func init() {
 	})
 	reg(vp+"AnyOf", func(e *Exec, s *State, f *Frame, x *ssa.Call, a []Val) ([]*State, bool) {
 		iv := a[0].(IfaceV)
-		e.store(s, iv.V.(Ptr), e.anyOf(s, iv.T.(*types.Pointer).Elem(), "in"))
+		v := e.anyOf(s, iv.T.(*types.Pointer).Elem(), "in")
+		e.store(s, iv.V.(Ptr), v)
 		return nil, false
 	})
 	reg(vp+"AnyString", func(e *Exec, s *State, f *Frame, x *ssa.Call, a []Val) ([]*State, bool) {
-		n := e.sol.fresh("instr", false)
-		e.inputs = append(e.inputs, n)
-		e.inputTag = append(e.inputTag, "string")
+		n := e.newInput("instr", "string", false)
 		return ret(f, x, SymStr{T: n})
 	})
 	reg(vp+"AnyAddr", func(e *Exec, s *State, f *Frame, x *ssa.Call, a []Val) ([]*State, bool) {
-		n := e.sol.fresh("inaddr", false)
-		e.inputs = append(e.inputs, n)
-		e.inputTag = append(e.inputTag, "addr")
+		n := e.newInput("inaddr", "addr", false)
 		e.sol.axiom("(>= " + n + " 0)")
 		return ret(f, x, BytesV{Segs: []Seg{{Kind: "addr", T: n}}})
 	})
@@ -689,9 +684,7 @@ func init() {
 		return ret(f, x, intc(int64(len(env.L[0].Bank)-env.Marked[0])))
 	})
 	reg(vp+"InjectFault", func(e *Exec, s *State, f *Frame, x *ssa.Call, a []Val) ([]*State, bool) {
-		n := e.sol.fresh("fault_at", false)
-		e.inputs = append(e.inputs, n)
-		e.inputTag = append(e.inputTag, "fault")
+		n := e.newInput("fault_at", "fault", false)
 		e.sol.axiom("(>= " + n + " 0)")
 		s.env().FaultAt = n
 		s.env().Accesses = 0
@@ -709,8 +702,11 @@ func init() {
 
 func (e *Exec) noteAddr(id string) {
 	k := "addr|" + id
-	if e.stats[k] == 0 {
-		e.stats[k] = 1
+	e.smu.Lock()
+	first := !e.seen[k]
+	e.seen[k] = true
+	e.smu.Unlock()
+	if first {
 		// user addresses are non-negative, module addresses negative: disjoint ranges; addrof is injective via its inverse
 		e.sol.axiom("(>= (addrof " + id + ") 0)")
 		e.sol.axiom("(=> (bech32ok " + id + ") (= (bech32of (addrof " + id + ")) " + id + "))")
